@@ -35,16 +35,20 @@ pub struct Acc {
     pub states: BTreeSet<u64>,
     pub outcomes: BTreeSet<u64>,
     pub samples: Vec<Value>,
-    pub violations: Vec<(String, String, Value)>,
+    /// (key, what, replay, rank): the lowest rank per key becomes the reported representative
+    pub violations: Vec<(String, String, Value, u64)>,
     pub capped: Option<String>,
+    pub dropped_violations: u64,
     pub extra: Vec<(String, u64)>,
 }
 
 impl Acc {
-    pub fn violation(&mut self, key: impl Into<String>, what: impl Into<String>, replay: Value) {
+    pub fn violation(&mut self, key: impl Into<String>, what: impl Into<String>, replay: Value, rank: u64) {
         // keep memory bounded: the report aggregates by key anyway
-        if self.violations.len() < 10_000 {
-            self.violations.push((key.into(), what.into(), replay));
+        if self.violations.len() < 20_000 {
+            self.violations.push((key.into(), what.into(), replay, rank));
+        } else {
+            self.dropped_violations += 1;
         }
     }
     pub fn outcome<T: std::hash::Hash + ?Sized>(&mut self, t: &T) {
@@ -74,7 +78,9 @@ impl Acc {
         for s in self.samples {
             rep.sample(s);
         }
-        for (k, w, r) in self.violations {
+        let mut v = self.violations;
+        v.sort_by(|a, b| (a.3, &a.0, a.2.to_string()).cmp(&(b.3, &b.0, b.2.to_string())));
+        for (k, w, r, _) in v {
             rep.violation(k, w, r);
         }
         if let Some(c) = self.capped {
@@ -88,4 +94,22 @@ impl Acc {
             }
         }
     }
+}
+
+/// Merge the accumulators of all tasks; violations are merged globally so that the representative
+/// of every key is the one with the lowest rank (shortest reproduction) over *all* tasks.
+pub fn merge_all(rep: &mut Report, accs: Vec<Acc>) -> Vec<(String, u64)> {
+    let mut extra = vec![];
+    let mut all = Acc::default();
+    let mut dropped = 0;
+    for mut a in accs {
+        all.violations.append(&mut a.violations);
+        dropped += a.dropped_violations;
+        a.merge_into(rep, &mut extra);
+    }
+    if dropped > 0 {
+        rep.set("violation_records_dropped_beyond_per_task_cap", explorer::json!(dropped));
+    }
+    all.merge_into(rep, &mut extra);
+    extra
 }
